@@ -268,13 +268,13 @@ Example C18_nonvacuous_run :
                   [([1], RNil); ([2; 3], RNil); ([], REof)];
                   [([7; 7], RNil); ([], RFail 5)] ] in
   let sched := [(0, false); (1, false); (2, false); (0, false); (1, false); (2, false)]%nat
-               ++ flat_map (fun i => [(i, false)]) (flat_map (fun _ => [2; 1; 0]%nat) (repeat tt 16)) in
+               ++ flat_map (fun i => [(i, false)]) (flat_map (fun _ => [2; 1; 0]%nat) (repeat tt 20)) in
   let s := runs toyD [] inputs sched in
   map res (sthr s) = [Some (ROk (Hk toyD [1; 2; 3])); Some (ROk (Hk toyD [1; 2; 3]));
                       Some (RErr (EInput 5))] /\
   map fst (objs (sfs s)) = [Hk toyD [1; 2; 3]] /\
   tmp (sfs s) = [] /\ lock (sfs s) = None /\
-  map committed (sthr s) = [false; true; false].
+  map committed (sthr s) = [true; false; false].
 Proof. vm_compute. repeat split. Qed.
 
 (** A failing rename (second entry of the schedule pair set to [true] at the
